@@ -268,6 +268,14 @@ Definition astypev (a t : absval) : absval :=
   | _, _ => ErrV
   end.
 
+(* np.float64(x) / np.float32(x) : a NumPy scalar from a Python number, an array from an array *)
+Definition castv (a t : absval) : absval :=
+  match a, t with
+  | Np _ k, Np d _ => Np d k
+  | (PyInt | PyFloat | PyBool _), Np d _ => Np d KScalar
+  | _, _ => ErrV
+  end.
+
 (* np.zeros(shape) / np.ones / np.empty / np.full(shape, pyfloat) : float64 unless dtype=<e>.dtype is given *)
 Definition allocv (t : option absval) : absval :=
   match t with
@@ -401,6 +409,7 @@ Inductive dexpr :=
 | DIndex (a : dexpr) (ik : idxkind)
 | DElem (a : dexpr)
 | DAstype (a t : dexpr)
+| DCast (a t : dexpr)                    (* np.float64(a) *)
 | DAlloc (t : option dexpr)
 | DLike (a : dexpr)
 | DArange (a : dexpr)
@@ -537,6 +546,7 @@ Fixpoint deval (c : cfg) (env : list absval) (lv : absval) (e : dexpr) {struct e
   | DIndex a ik => lift1 (fun v => indexv v ik) (ev a)
   | DElem a => lift1 elemv (ev a)
   | DAstype a t => lift2 astypev (ev a) (ev t)
+  | DCast a t => lift2 castv (ev a) (ev t)
   | DAlloc None => [allocv None]
   | DAlloc (Some t) => lift1 (fun v => allocv (Some v)) (ev t)
   | DLike a => lift1 likev (ev a)
